@@ -58,6 +58,13 @@ pub fn run(tier: &str, seed: u64, out: &mut Out) {
         "<div>{{ \"\" }}</div><v a=\"{{ '' }}\">{{ '' }}{{a}}</v>".into(),
         "<wxs module=\"m\">module.exports = { s: \"</wxsx>\" }</wxs>{{m.s}}".into(),
         "<div>a{<!-- c -->{b}}</div>".into(),
+        // source paths that still end with the file suffix after the parser stripped one
+        "<import src=\"a.wxml.wxml\"/><import src=\"./b.wxml\"/><wxs module=\"m\" src=\"/e1.wxs.wxs\"/><wxs module=\"n\" src=\"/e1.wxs\"/><v>{{ n.g(a) }}</v><include src=\"c.wxml.wxml\"/>".into(),
+        // several script modules, inline and external in every order, each one referenced (module names are scope
+        // references: printing must keep each reference on its own module)
+        "<wxs module=\"inl\">exports.f = function(a){ return 'I' + a }</wxs><wxs module=\"ext\" src=\"/e1\"/>{{ inl.f(a) }}{{ ext.g(a) }}".into(),
+        "<wxs module=\"ext\" src=\"/e1\"/><wxs module=\"inl\">exports.f = function(a){ return 'I' + a }</wxs><v a=\"{{ inl.f(a) }}\" b=\"{{ ext.g(a) }}\"/>".into(),
+        "<wxs module=\"m1\">exports.f = function(a){ return '1' + a }</wxs><wxs module=\"m2\" src=\"/e2\"/><wxs module=\"m3\">exports.f = function(a){ return '3' + a }</wxs><wxs module=\"m4\" src=\"./e1\"/><template name=\"t\">{{ m1.f(x) }}{{ m2.g(x) }}{{ m3.f(x) }}{{ m4.g(x) }}</template><template is=\"t\" data=\"{{ x: a }}\"/><v wx:for=\"{{ l }}\" wx:for-item=\"m2\">{{ m1.f(m2) }}{{ m4.g(index) }}</v>".into(),
         "<div>{{a}}<!-- c -->{{b}}</div><div>x<!-- c -->y</div><div>{<!-- c -->a}<!-- d --></div>".into(),
         // static-string attributes whose decoded value contains a well-formed character reference
         "<template name=\"cell-&amp;lt;b&amp;gt;\">T{{a}}</template><template is=\"cell-&amp;lt;b&amp;gt;\" data=\"{{ a: 1 }}\"/>".into(),
@@ -79,12 +86,16 @@ pub fn run(tier: &str, seed: u64, out: &mut Out) {
         };
         let r = catch(std::panic::AssertUnwindSafe(|| {
             let mut g0 = TmplGroup::new();
+            g0.add_script("e1", "exports.g = function(a){ return 'E1' + a }");
+            g0.add_script("e2", "exports.g = function(a){ return 'E2' + a }");
             let d0 = g0.add_tmpl("p", &src);
             let level0 = d0.iter().map(|d| d.kind.level() as u8).max().unwrap_or(0);
             let mut rounds = vec![];
             for mangle in [false, true] {
                 let s1 = print(&g0, "p", &src, mangle);
                 let mut g1 = TmplGroup::new();
+                g1.add_script("e1", "exports.g = function(a){ return 'E1' + a }");
+                g1.add_script("e2", "exports.g = function(a){ return 'E2' + a }");
                 let d1 = g1.add_tmpl("p", &s1);
                 let diags1: Vec<(String, u8)> = d1.iter().map(|d| (d.kind.to_string(), d.kind.level() as u8)).collect();
                 let s2 = print(&g1, "p", &s1, mangle);
